@@ -33,7 +33,7 @@ ANCHORS = [
 _ROWS = ['not-json', 'invalid-request', 'batch-empty', 'batch-invalid-element', 'batch-duplicate-ids', 'batch-too-large',
          'unknown-method', 'unbound', 'rpc-error', 'exception']
 FLOORS = {'*': {f'row:{k}:{r}': (3 if r == 'batch-empty' else 5) for k in ('sync', 'async') for r in _ROWS} | {
-    'exc:TypeError-in-body': 2, 'flavour:async-plain': 200, 'flavour:sync-inert': 200, 'flavour:async-inert': 200, 'flavour:sync-debuglog': 200, 'flavour:async-debuglog': 200, 'as:notification': 50, 'as:batch-element': 50, 'as:call': 200,
+    'exc:TypeError-in-body': 2, 'flavour:async-plain': 200, 'flavour:sync-inert': 200, 'flavour:async-inert': 200, 'flavour:sync-debuglog': 200, 'flavour:async-debuglog': 200, 'flavour:async-sequential': 200, 'as:notification': 50, 'as:batch-element': 50, 'as:call': 200,
     'rpc:data-null': 5, 'rpc:data-absent': 5, 'rpc:message-empty': 1, 'rpc:code-0': 1,
 }}
 
